@@ -98,7 +98,9 @@ LabA(ev, S, t, layer, last, extra, o) ==
   LET X == XX(S, t)
       last2 == IF IsNil(last.e) /\ CanceledF(X, o) THEN Pair(last.r, ErrF(X, o)) ELSE last IN
   \* AttemptStartTime() belongs to the copy: set when the execution starts and by InitializeRetry, inherited by copies
-  [ev |-> ev, x |-> S.th[t].x, L |-> layer] @@ Snap(X, last2) @@ [ast |-> X.ast[o], ael |-> now - X.ast[o]] @@ extra
+  \* IsFirstAttempt() / IsRetry() are read from the shared attempts counter, IsHedge() belongs to the copy
+  [ev |-> ev, x |-> S.th[t].x, L |-> layer] @@ Snap(X, last2) @@ [ast |-> X.ast[o], ael |-> now - X.ast[o]]
+     @@ [first |-> X.att = 1, retry |-> X.att > 1, ishedge |-> X.objs[o].hedge] @@ extra
 \* events built from ExecutionInfo + explicit result/error (done events)
 LabD(ev, S, t, layer, last, extra) ==
   [ev |-> ev, x |-> S.th[t].x, L |-> layer] @@ Snap(XX(S, t), last) @@ extra
@@ -288,7 +290,7 @@ UpSteps(S, t) ==
          LET fail == IsFailureX(p.h, pr.r, pr.e) IN
          IF T.sub = "-" THEN One([S EXCEPT !.th[t].sub = "rec"], Lab(IF fail THEN "OnFailure" ELSE "OnSuccess", S, t, i, last, NoX))
          ELSE \* recordSuccess / recordFailure under the breaker mutex (state listeners are called inside it)
-              LET r == BO(p.cfg)!Record(S.pol[p.id], ~fail, now)
+              LET r == BO(p.cfg)!RecordD(S.pol[p.id], ~fail, now, IF fail THEN DfnOf(p) ELSE -1)   \* the delay function is asked about a failure only
                   S1 == [S EXCEPT !.pol[p.id] = r.b, !.th[t].sub = "-"] IN
               One(Ret(S1, t, i - 1, IF fail THEN WithFailure(pr) ELSE WithDone(pr, TRUE, TRUE)),
                   IF r.ev = <<>> THEN NoLab ELSE [ev |-> "StateChanged", id |-> p.id, old |-> r.ev[1].old, new |-> r.ev[1].new])
